@@ -21,6 +21,9 @@ pub struct Case {
     pub reg: RegSrc,
     pub settings: SettingsSpec,
     pub note: String,
+    /// run `ensure_unique_type_paths` on the registry first
+    #[serde(default)]
+    pub dedup: bool,
 }
 
 thread_local! {
@@ -59,6 +62,26 @@ impl RegSrc {
 }
 
 impl Case {
+    pub fn new(reg: RegSrc, settings: SettingsSpec, note: impl Into<String>) -> Case {
+        Case {
+            reg,
+            settings,
+            note: note.into(),
+            dedup: false,
+        }
+    }
+    /// the registry of this case (after de-duplication if requested); Err = de-duplication failed
+    pub fn registry(&self) -> Result<PortableRegistry, String> {
+        let mut r = self.reg.registry();
+        if self.dedup {
+            match crate::run::guarded(|| scale_typegen::utils::ensure_unique_type_paths(&mut r)) {
+                Ok(Ok(())) => {}
+                Ok(Err(e)) => return Err(format!("ensure_unique_type_paths: {e}")),
+                Err(p) => return Err(format!("ensure_unique_type_paths panics: {p}")),
+            }
+        }
+        Ok(r)
+    }
     pub fn replay(&self, check: &str) -> Value {
         json!({"check": check, "case": serde_json::to_value(self).unwrap(), "source": self.reg.describe()})
     }
